@@ -74,7 +74,8 @@ class Rig:
         self.has_discovery = False
         self.first_pairing_id = id(self.pairing)
         self.log = []
-        self.pairing.dispatcher_connect(lambda ev: self.log.append(dict(ev)))
+        self.listening = True
+        self._unlisten = self.pairing.dispatcher_connect(lambda ev: self.log.append(dict(ev)))
         self.avail = []  # what availability listeners were told
         self.pairing.dispatcher_availability_changed(lambda a: self.avail.append(bool(a)))
         self.model_last = last
@@ -238,6 +239,7 @@ def step(rig: Rig, sym, arg=None):
         rig.controller = BleController(rig.cache)
         rig.pairing = rig.controller.load_pairing("alias", rig.pairing_data)
         rig.pairing.dispatcher_connect(lambda ev: rig.log.append(dict(ev)))
+        rig.listening = True
         rig.pairing_b = rig.controller.load_pairing("neighbour", dict(rig.pairing_data, AccessoryPairingID=DEV_ID_B.upper(), AccessoryAddress="00:11:22:33:44:66"))
         rig.pairing_b.dispatcher_connect(lambda ev: rig.log_b.append(dict(ev)))
         rig.has_discovery = False
@@ -270,6 +272,7 @@ def step(rig: Rig, sym, arg=None):
             # the application loads the pairing again on the same controller (reload, set-up retry): what was accepted stays accepted
             rig.pairing = rig.controller.load_pairing("alias", rig.pairing_data)
             rig.pairing.dispatcher_connect(lambda ev: rig.log.append(dict(ev)))
+            rig.listening = True
         rig.loop.run_until_idle()
         after = rig.state()
         out = []
@@ -286,6 +289,17 @@ def step(rig: Rig, sym, arg=None):
         rig.loop.run_until_idle()
         if rig.state() != before:
             return [("database-replacement-changes-state-number-or-notifies", {"before": before, "after": rig.state()})], True
+        return [], True
+    if sym in ("listener:off", "listener:on"):
+        # the application's listener goes away for a while (set-up not finished, a reload): broadcasts are judged all the same - what was
+        # accepted while nobody listened stays accepted, a replay of it is a replay when somebody listens again
+        if (sym == "listener:off") != rig.listening or id(rig.pairing) != rig.first_pairing_id:
+            return [], False
+        if rig.listening:
+            rig._unlisten()
+        else:
+            rig._unlisten = rig.pairing.dispatcher_connect(lambda ev: rig.log.append(dict(ev)))
+        rig.listening = not rig.listening
         return [], True
     if sym.startswith("far:"):
         # a genuine broadcast far ahead of what this pairing has accepted (it missed a lot): kept, byte for byte, for `replay-rec`
@@ -353,6 +367,11 @@ def step(rig: Rig, sym, arg=None):
             out.append(("undeliverable-notification-reached-listeners", dict(det, log=new)))
         if after[0] == m["gsn"]:
             rig.model_last = m["gsn"]
+    elif accepted and legit and not rig.listening:
+        # nobody to deliver to: the state number advances all the same
+        if after[0] != m["gsn"]:
+            out.append(("accepted-notification-did-not-advance-state-number", dict(det, state_num=after[0], gsn=m["gsn"], listener_registered=False)))
+        rig.model_last = m["gsn"]
     elif accepted and legit:
         iid, v8 = m["iid"], m["value8"]
         fmt = rig.chars.get(iid)
@@ -456,7 +475,7 @@ def _bfs(item, seed, tier):
                         acc.violation(sig, "history", {"base": base, "history": [list(x) for x in h2]}, detail)
                     acc.case(key=("h", base, h2), outcome="violation" if v else f"last={'moved' if rig.model_last != base else 'same'}", sample={"base": base, "history": [s for s, _ in h2]})
                     acc.traces += 1
-                    key = (rig.state()[0], rig.model_last, rig.state_b()[0], rig.model_last_b, len(rig.neighbour_payloads) > 0, rig.chars == CHARS, tuple(sorted(seen_iids(rig))), rig.has_discovery, id(rig.pairing) != rig.first_pairing_id, disc_state(rig), rig.floor, getattr(rig, "n_restarts", 0), durable(rig), pairing_state(rig), getattr(rig, "recorded", (None,))[0])
+                    key = (rig.state()[0], rig.model_last, rig.state_b()[0], rig.model_last_b, len(rig.neighbour_payloads) > 0, rig.chars == CHARS, tuple(sorted(seen_iids(rig))), rig.has_discovery, id(rig.pairing) != rig.first_pairing_id, disc_state(rig), rig.floor, getattr(rig, "n_restarts", 0), durable(rig), pairing_state(rig), getattr(rig, "recorded", (None,))[0], rig.listening)
                     if v or key in seen:
                         continue
                     seen[key] = h2
@@ -497,6 +516,8 @@ def run(ctx):
     # broadcasts the pairing has to refuse now and may have to accept later (far ahead, then the window moves over them); long runs of forgeries
     FAR = ["far:+120", "far:+150", "replay-rec", "+1", "+50", "+99", "same", "regular-adv", "wrong-key", "restart"]
     work += [(b, 4 if quick else 5, FAR, f) for b in ([300] if quick else [1, 300, 65300]) for f in FAR if f != "replay-rec"]
+    LI = ["listener:off", "listener:on", "+1", "+2", "same", "-1", "old:1", "regular-adv", "wrong-key"]
+    work += [(b, 4 if quick else 6, LI, f) for b in ([300] if quick else [1, 300, 65500]) for f in ("listener:off", "+1")]
     FL = ["flood:wrong-key", "+1", "far:+120", "replay-rec"] if quick else ["flood:wrong-key", "flood:bitflips", "+1", "+50", "same", "far:+120", "replay-rec"]
     work += [(b, 2 if quick else 3, FL, f) for b in ([300] if quick else [1, 300]) for f in FL if f != "replay-rec"]
     ctx.pmap(_bfs, work)
